@@ -100,12 +100,10 @@ static QAD *b64_8(const uint8_t *p, uint64_t n) { if (n && VP_IS_QB(p)) return (
 static QAD *blk16(const uint16_t *p, uint64_t n) { if (n && VP_IS_QS(p)) return (QAD*)((char*)p - QS_OFF); return 0; }
 static int num_eq(struct numv a, struct numv b) { return a.isnum && b.isnum && a.mag == b.mag && a.neg == b.neg; }
 /* equality / order of two UTF-16 views; a number string equals only a number string of the same value */
-static int qb_eq_raw(QAD *a, QAD *b);
-static int view_eq(uint64_t na, const uint16_t *a, uint64_t nb, const uint16_t *b) { struct numv ia = num16(a, na), ib = num16(b, nb);
-  if (ia.isnum || ib.isnum) return num_eq(ia, ib); QAD *ta = b64_16(a, na), *tb = b64_16(b, nb); if (ta || tb) return ta && tb && qb_eq_raw(ta, tb);
-  if (na != nb) return 0; return vpl_cmp16(a, b, (uint32_t)na, (uint32_t)na, (uint32_t)nb) == 0; }
-static int view_cmp(uint64_t na, const uint16_t *a, uint64_t nb, const uint16_t *b) { if (view_eq(na, a, nb, b)) return 0; uint32_t m = (uint32_t)(na < nb ? na : nb);
-  int c = vpl_cmp16(a, b, m, (uint32_t)na, (uint32_t)nb); if (c) return c; return na == nb ? 1 /* distinct numbers with equal placeholder */ : (na < nb ? -1 : 1); }
+/* C20: no abstract number strings and no base64 tags occur in this property; comparisons are plain code-unit comparisons */
+static int view_eq(uint64_t na, const uint16_t *a, uint64_t nb, const uint16_t *b) { if (na != nb) return 0; return vpl_cmp16(a, b, (uint32_t)na, (uint32_t)na, (uint32_t)nb) == 0; }
+static int view_cmp(uint64_t na, const uint16_t *a, uint64_t nb, const uint16_t *b) { uint32_t m = (uint32_t)(na < nb ? na : nb);
+  int c = vpl_cmp16(a, b, m, (uint32_t)na, (uint32_t)nb); if (c) return c; return na == nb ? 0 : (na < nb ? -1 : 1); }
 /* QAD-based loops: length, hint and data are dereferenced inside the loop condition/body so that they fold per candidate block */
 #define QHINT16(d) ((d)->f3 == QS_OFF ? ((struct qs*)(d))->hint : (d)->f1)
 #define QHINT8(d) ((d)->f3 == QB_OFF ? ((struct qb*)(d))->hint : (d)->f1)
@@ -116,16 +114,9 @@ static int view_cmp(uint64_t na, const uint16_t *a, uint64_t nb, const uint16_t 
 static int vpl_qeq16(QAD *a, QAD *b) { for (uint32_t i = 0; i < QHINT16(a) && i < QHINT16(b); i++) { if (i >= a->f1) break; if (((uint16_t*)((char*)a + a->f3))[i] != ((uint16_t*)((char*)b + b->f3))[i]) return 0; } return 1; }
 static int vpl_qeq8(QAD *a, QAD *b) { for (uint32_t i = 0; i < QHINT8(a) && i < QHINT8(b); i++) { if (i >= a->f1) break; if (((uint8_t*)((char*)a + a->f3))[i] != ((uint8_t*)((char*)b + b->f3))[i]) return 0; } return 1; }
 static int qb_eq(QAD *a, QAD *b); static int qb_eq_raw(QAD *a, QAD *b);
-static int d_eq(QAD *a, QAD *b) {
-  if (QNUM16(a) || QNUM16(b)) return QNUM16(a) && QNUM16(b) && ((struct qs*)a)->mag == ((struct qs*)b)->mag && ((struct qs*)a)->neg == ((struct qs*)b)->neg;
-  if (QTAG16(a) || QTAG16(b)) return QTAG16(a) && QTAG16(b) && qb_eq_raw(QTAG16(a), QTAG16(b));
-  if (a->f1 != b->f1) return 0; return vpl_qeq16(a, b); }
-/* raw byte blocks (targets of a base64 tag) are never tagged themselves: no recursion */
+static int d_eq(QAD *a, QAD *b) { if (a->f1 != b->f1) return 0; return vpl_qeq16(a, b); }
 static int qb_eq_raw(QAD *a, QAD *b) { if (a->f1 != b->f1) return 0; return vpl_qeq8(a, b); }
-static int qb_eq(QAD *a, QAD *b) {
-  if (QNUM8(a) || QNUM8(b)) return QNUM8(a) && QNUM8(b) && ((struct qb*)a)->mag == ((struct qb*)b)->mag && ((struct qb*)a)->neg == ((struct qb*)b)->neg;
-  if (QTAG8(a) || QTAG8(b)) return QTAG8(a) && QTAG8(b) && qb_eq_raw(QTAG8(a), QTAG8(b));
-  return qb_eq_raw(a, b); }
+static int qb_eq(QAD *a, QAD *b) { return qb_eq_raw(a, b); }
 
 /* ---- harness entry points ---- */
 static void sym16(char *out, uint32_t minlen, uint32_t maxlen) { uint32_t len = vp_u32(); ASSUME(len >= minlen && len <= maxlen); ASSERT(maxlen <= 8, "symbolic string bound"); QAD *d = qs_new(len, maxlen);
